@@ -20,7 +20,7 @@ from vt.core import Reject, Violation, call_repo
 
 ID = 'C07'
 RULE = (
-    'descriptor = (grid shape with n1d along coord 2..130, nthread 1..16, npartition None or any integer, coord, sort, offset in {0, h/2, random}, dtype, box) '
+    'descriptor = (grid shape with n1d along coord 2..130, nthread 1..16 or -1 (all threads, the default), npartition None or any integer, coord, sort, offset in {0, h/2, random}, dtype, box) '
     'x adversarial particles along coord (every stripe boundary and half-cell, +-{0,1,2} ulp, 0, L) sharing <=2 cells in the other coordinates; '
     'plus an enumerated sub-space of all (n1d, nthread, npartition) with a fixed quarter-cell particle set. '
     'non-trivial = configuration accepted, >=4 stripes, particles within 2 ulp of >=2 stripe boundaries; distinct = descriptor hash.'
@@ -32,8 +32,8 @@ ASSUMPTIONS = [
     "each particle's touched cells do not depend on the other particles (the kernel loops over particles independently)",
 ]
 EXHAUSTIVE_NOTE = {
-    'quick': 'all (n1d<=24) x (nthread in {2,3,5,16}) x (npartition None and every explicit 1..n1d) x {array grid coord 0 offset 0|h/2, shape-tuple grid (48,n,2) coord 1 offset h/2, shape-tuple grid (2,48,n) coord 2 offset 0}, quarter-cell particle set along coord plus every stripe boundary +-0..3 ulp, through O1',
-    'thorough': 'all (n1d<=64) x (nthread 2..16) x (npartition None and every explicit 1..n1d) x {array grid coord 0 offset 0|h/2, shape-tuple grid (48,n,2) coord 1 offset h/2, shape-tuple grid (2,48,n) coord 2 offset 0}, quarter-cell particle set along coord plus every stripe boundary +-0..3 ulp, through O1',
+    'quick': 'all (n1d<=24) x (nthread in {2,3,5,16,-1}) x (npartition None and every explicit 1..n1d) x {array grid coord 0 offset 0|h/2, shape-tuple grid (48,n,2) coord 1 offset h/2, shape-tuple grid (2,48,n) coord 2 offset 0}, quarter-cell particle set along coord plus every stripe boundary +-0..3 ulp, through O1',
+    'thorough': 'all (n1d<=64) x (nthread 2..16 and -1) x (npartition None and every explicit 1..n1d) x {array grid coord 0 offset 0|h/2, shape-tuple grid (48,n,2) coord 1 offset h/2, shape-tuple grid (2,48,n) coord 2 offset 0}, quarter-cell particle set along coord plus every stripe boundary +-0..3 ulp, through O1',
 }
 
 
@@ -58,7 +58,7 @@ def _desc(draw, tier):
     n1d = draw(st.one_of(st.integers(2, 40), st.integers(2, 130)))
     other = draw(st.sampled_from([2, 3, 4, 5]))
     coord = draw(st.integers(0, 2))
-    nthread = draw(st.one_of(st.integers(2, 16), st.sampled_from([1, 2, 16])))
+    nthread = draw(st.one_of(st.integers(2, 16), st.sampled_from([1, 2, 16, -1, -1])))  # -1 (the default): all threads (16 in the workers)
     npart = draw(st.one_of(st.none(), st.none(), st.integers(1, n1d), st.sampled_from([n1d // 2, n1d // 3, n1d // 4, (n1d - 1) // 3, 2, 4]).map(lambda v: max(v, 1))))
     dtype = draw(st.sampled_from(['f4', 'f4', 'f8']))
     box = draw(st.sampled_from([1.0, 123.0, 2000.0, 64.0, 7.3]))
@@ -89,13 +89,18 @@ def _effective_np(d):
     return d['npartition']
 
 
+def _nt(d):
+    """thread count a descriptor asks for, with the 'all threads' spelling resolved (workers run with NUMBA_NUM_THREADS=16)"""
+    return 16 if d['nthread'] < 0 else d['nthread']
+
+
 def positions(d):
     """Deterministic particle positions from the descriptor."""
     dt = np.float32 if d['dtype'] == 'f4' else np.float64
     n1d, box = d['n1d'], d['box']
     L = dt(box)
     h = box / n1d
-    npq = d['npartition'] or max(2, 2 * (min(n1d // 3, 2 * d['nthread']) // 2))
+    npq = d['npartition'] or max(2, 2 * (min(n1d // 3, 2 * _nt(d)) // 2))
     xs = []
     near = 0
     for kind, idx, ul, oc, fr in d['pts']:
@@ -151,15 +156,15 @@ def nontrivial(d):
         return True
     npq = d['npartition']
     if npq is None:
-        npq = 4 if d['nthread'] > 1 and d['n1d'] >= 12 else 1
+        npq = 4 if _nt(d) > 1 and d['n1d'] >= 12 else 1
     nb = len({(p[1] % (npq + 1), p[2]) for p in d['pts'] if p[0] == 'stripe'})
-    return d['nthread'] > 1 and npq >= 4 and nb >= 2
+    return _nt(d) > 1 and npq >= 4 and nb >= 2
 
 
 def classes(d):
     if d.get('mode') == 'grid':
         return ['enumerated', 'offset=half' if d['offhalf'] else 'offset=0', 'variant=' + d.get('variant', 'a0')]
-    c = ['nthread=1' if d['nthread'] == 1 else 'nthread>1', 'np=None' if d['npartition'] is None else 'np=explicit', 'coord=%d' % d['coord'], 'offset=' + ('0' if d['offfrac'] == 0 else 'half' if d['offfrac'] == 0.5 else 'rand' if d['offfrac'] < 1 else 'cells'), d['dtype'], 'grid=' + d.get('gridkind', 'array')]
+    c = ['nthread=1' if d['nthread'] == 1 else 'nthread=-1(all)' if d['nthread'] < 0 else 'nthread>1', 'np=None' if d['npartition'] is None else 'np=explicit', 'coord=%d' % d['coord'], 'offset=' + ('0' if d['offfrac'] == 0 else 'half' if d['offfrac'] == 0.5 else 'rand' if d['offfrac'] < 1 else 'cells'), d['dtype'], 'grid=' + d.get('gridkind', 'array')]
     if d.get('mode') == 'grid':
         c.append('enumerated')
     return c
@@ -322,7 +327,7 @@ def exhaustive(tier, shard, nshards):
             k += 1
             if k % nshards != shard:
                 continue
-            yield {'mode': 'grid', 'variant': variant, 'n1d': n1d, 'offhalf': offk, 'box': 64.0 if (n1d + offk) % 3 == 0 else 123.0, 'dtype': 'f4', 'nthreads': [2, 3, 5, 16] if tier == 'quick' else list(range(2, 17))}
+            yield {'mode': 'grid', 'variant': variant, 'n1d': n1d, 'offhalf': offk, 'box': 64.0 if (n1d + offk) % 3 == 0 else 123.0, 'dtype': 'f4', 'nthreads': [2, 3, 5, 16, -1] if tier == 'quick' else list(range(2, 17)) + [-1]}
 
 
 def _run_grid(tsc, d):
